@@ -45,12 +45,15 @@ Definition sched_abs (started : bool) (now w when : Z) (onwall : bool) : option 
      1 arg : schedule(now + arg)                         logical, relative
      2 arg : schedule(arg, tag, on_wall_clock = true)    wall-clock alarm at arg; reads the clock once (w1)
      3 arg : schedule(TimeDelta arg, tag, true)          wall-clock alarm in arg; reads the clock twice (w1, w2)
-     4 arg : schedule(arg)                               logical, absolute                                  *)
+     4 arg : schedule(arg)                               logical, absolute
+     8 arg : graph.schedule_node(self, now + arg)        the raw single-shot request of a node that holds no future
+                                                         wake-up (a push-kind heartbeat): same rule as 1            *)
 Definition sched_eff (started : bool) (now kind arg w1 w2 : Z) : option Z :=
   if kind =? 1 then sched_abs started now 0 (now + arg) false else
   if kind =? 2 then sched_abs started now w1 arg true else
   if kind =? 3 then sched_abs started now w2 (Z.max now w1 + arg) true else
-  if kind =? 4 then sched_abs started now 0 arg false else None.
+  if kind =? 4 then sched_abs started now 0 arg false else
+  if kind =? 8 then sched_abs started now 0 (now + arg) false else None.
 
 (* how many clock readings the request makes *)
 Definition req_reads (kind : Z) : Z := if kind =? 2 then 1 else if kind =? 3 then 2 else 0.
@@ -281,6 +284,7 @@ Inductive fev :=
 | FAct (kind : Z)                (* 1 push / 2 stop: the call is about to be made *)
 | FActRet (kind : Z)             (* the call returned *)
 | FExit (wobs : Z)
+| FNext (nx : Z)                 (* graph.next_scheduled_time() after the cycle (-1: nothing scheduled) *)
 | FBad.
 
 Record fst_ := mkF {
@@ -298,7 +302,7 @@ Definition btw (lo x hi : Z) : bool := (lo <=? x) && (x <=? hi).
 
 (* is [eff] a possible outcome of the request when its clock readings lie in [wb, wa]? *)
 Definition freq_ok (started : bool) (now kind arg eff wb wa : Z) : bool :=
-  if (kind =? 1) || (kind =? 4) then
+  if (kind =? 1) || (kind =? 4) || (kind =? 8) then
     match sched_eff started now kind arg 0 0 with Some e => eff =? e | None => eff =? 0 end
   else if kind =? 2 then
     if started then
@@ -374,6 +378,9 @@ Definition fr_step (c : cfg) (f : fst_) (e : fev) : option fst_ :=
       then Some (mkF (f_pend f) (f_prev f) wobs (f_ncyc f) (f_consec f) (f_stopinit f) (f_stopret f)
                      (f_after_stop f) false 0 false false true true)
       else None
+  | FNext nx =>
+      let m := pend_min (f_pend f) in
+      if negb (f_in f) && (nx =? (if m =? MAX_DT then -1 else m)) then Some f else None
   | FBad => None
   end.
 
@@ -382,6 +389,73 @@ Fixpoint fr_exec_ix (c : cfg) (f : fst_) (es : list fev) (i : Z) : Z * fst_ :=
   | [] => (-1, f)
   | e :: r => match fr_step c f e with Some f' => fr_exec_ix c f' r (i + 1) | None => (i, f) end
   end.
+
+(* ================================================================== *)
+(* What the run loop reads through graph.next_scheduled_time() is a CACHE that the root evaluate_impl
+   recomputes in every cycle.  The LTS above abstracts it to [pend_min (pend s)]; the recorded value is
+   checked against that abstraction by the acceptor ([ONext]), and the scan that computes it is mirrored
+   here (graph.cpp, root evaluate_impl): one slot per node, the first nodes are the push-source prefix.
+     push pass, node of the prefix: evaluated when a push is pending or its slot is due (a due slot is
+       cleared first); whether or not it was evaluated, its slot, when in the future, is folded into the
+       cached minimum;
+     ordinary pass: a node whose slot is due is evaluated (it registers its own next time through
+       schedule_node); otherwise a future slot is folded into the minimum.
+   A node's evaluation is abstracted to the list of times it asks schedule_node for (its own slot only:
+   graphs without edges, as in this family). *)
+(* schedule_node_impl (when >= current): keeps the earliest future slot; updates the cache *)
+Definition schedule_node_rule (cur when : Z) (sn : Z * Z) : Z * Z :=
+  let '(slot, next) := sn in
+  if (slot <=? cur) || (when <? slot)
+  then (when, if (cur <? when) && (when <? next) then when else next)
+  else (slot, next).
+
+Definition fold_slot (t slot next : Z) : Z := if (t <? slot) && (slot <? next) then slot else next.
+
+Fixpoint scan_push (t : Z) (pushp : bool) (beh : nat -> list Z) (i : nat) (slots : list Z) (next : Z) : list Z * Z :=
+  match slots with
+  | [] => ([], next)
+  | sl :: r =>
+      let due := sl =? t in
+      let '(sl1, next1) :=
+        if pushp || due
+        then fold_left (fun sn w => schedule_node_rule t w sn) (beh i) (if due then MIN_DT else sl, next)
+        else (sl, next) in
+      let next2 := fold_slot t sl1 next1 in
+      let '(r', n') := scan_push t pushp beh (S i) r next2 in (sl1 :: r', n')
+  end.
+
+Fixpoint scan_norm (t : Z) (beh : nat -> list Z) (i : nat) (slots : list Z) (next : Z) : list Z * Z :=
+  match slots with
+  | [] => ([], next)
+  | sl :: r =>
+      let '(sl1, next1) :=
+        if sl =? t
+        then fold_left (fun sn w => schedule_node_rule t w sn) (beh i) (sl, next)
+        else (sl, fold_slot t sl next) in
+      let '(r', n') := scan_norm t beh (S i) r next1 in (sl1 :: r', n')
+  end.
+
+(* one root cycle at t: the new slots and the new cached next_scheduled_time *)
+Definition root_scan (t : Z) (pushp : bool) (beh : nat -> list Z) (prefix rest : list Z) : list Z * Z :=
+  let '(p', n1) := scan_push t pushp beh 0 prefix MAX_DT in
+  let '(r', n2) := scan_norm t beh (length prefix) rest n1 in
+  (p' ++ r', n2).
+
+(* ================================================================== *)
+(* A recorded hook-mode history: labels, and reports of the cached next_scheduled_time. *)
+Inductive obs := OLabel (l : label) | ONext (nx : Z).
+
+Definition next_obs (s : st) : Z := let m := pend_min (pend s) in if m =? MAX_DT then -1 else m.
+
+Fixpoint accept_ix (c : cfg) (s : st) (os : list obs) (i : Z) : Z * st :=
+  match os with
+  | [] => (-1, s)
+  | OLabel l :: r => match gstep c s l with Some s' => accept_ix c s' r (i + 1) | None => (i, s) end
+  | ONext nx :: r => if nx =? next_obs s then accept_ix c s r (i + 1) else (i, s)
+  end.
+
+Definition labels_of (os : list obs) : list label :=
+  flat_map (fun o => match o with OLabel l => [l] | ONext _ => [] end) os.
 
 (* =====================  wire format  ===================== *)
 (* case:  1 start end slice virt v0 dflt | 2 deltas... | 3 node k kind arg | 4 at kind notify_at | 5 delay kind | 6 nnodes
@@ -427,6 +501,12 @@ Definition decode_label (l : line) : label :=
     if k =? 33 then XStopNotify else LBad
   end.
 
+Definition decode_obs (l : line) : obs :=
+  match l with
+  | [k; nx] => if k =? 23 then ONext nx else OLabel (decode_label l)
+  | _ => OLabel (decode_label l)
+  end.
+
 Definition decode_fev (l : line) : list fev :=
   match l with
   | [] => [FBad]
@@ -439,6 +519,7 @@ Definition decode_fev (l : line) : list fev :=
     if k =? 19 then match a with [_; kind; arg; eff; _; wb; wa] => [FReq kind arg eff wb wa] | _ => [FBad] end else
     if k =? 20 then match a with [w] => [FEvalEnd w] | _ => [FBad] end else
     if k =? 21 then match a with [w] => [FExit w] | _ => [FBad] end else
+    if k =? 23 then match a with [x] => [FNext x] | _ => [FBad] end else
     if k =? 36 then match a with [x] => [FAct x] | _ => [FBad] end else
     if k =? 35 then match a with [x] => [FActRet x] | _ => [FBad] end else [FBad]
   end.
@@ -459,7 +540,7 @@ Definition run_rtloop (w : wire) : wire :=
   match out with
   | [k; m] :: evs =>
       if (k =? 90) && (m =? 1) then
-        let '(i, s) := exec_ix c (init c (clock0 case)) (map decode_label evs) 0 in
+        let '(i, s) := accept_ix c (init c (clock0 case)) (map decode_obs evs) 0 in
         if (i =? -1) && (match ph s with PDone => true | _ => false end) then [[1]]
         else [[0; 1; i]]
       else if (k =? 90) && (m =? 0) then
